@@ -191,6 +191,7 @@ func c02Units(t core.Tier) []c02Unit {
 	if t == core.Thorough {
 		us = append(us, c02Unit{"in3", 0})
 	}
+	us = append(us, c02Unit{"inv", 0})
 	return us
 }
 
@@ -252,6 +253,35 @@ func (c02) RunUnit(t core.Tier, u int, r *core.Reporter) {
 					}
 				}
 				c02Explore(r, ref.Bin("&", ref.Not(ref.Bin("|", a.Clone(), b.Clone())), c.Clone()), stores[3])
+			}
+		}
+	case "inv":
+		// a BETWEEN with reversed bounds next to an alternative that decides the
+		// row first: pair by pair (row mode short-circuit) the reversed atom is
+		// never evaluated on the rows the alternative accepts, so the access
+		// path must still reach those rows
+		k, sx := ref.Key, ref.S
+		invs := []*ref.Expr{ref.Btw(k(), sx("c"), sx("a")), ref.Btw(k(), sx("b"), sx("ab")), ref.Btw(k(), sx("ab"), sx("a")), ref.Btw(k(), sx("z"), sx(""))}
+		keys := []string{"0", "a", "ab", "abc", "b", "bz", "c"}
+		var sts [][]store.Pair
+		for i, a := range keys {
+			sts = append(sts, []store.Pair{{K: a, V: "x"}})
+			for _, b := range keys[i+1:] {
+				sts = append(sts, []store.Pair{{K: a, V: "x"}, {K: b, V: "y"}})
+			}
+		}
+		for _, a := range small {
+			for _, inv := range invs {
+				for _, p := range []*ref.Expr{
+					ref.Bin("|", a.Clone(), inv.Clone()), ref.Bin("or", a.Clone(), inv.Clone()),
+					ref.Bin("|", a.Clone(), ref.Bin("&", inv.Clone(), ref.Bin("=", ref.Value(), sx("x")))),
+					ref.Bin("&", ref.Bin("|", a.Clone(), inv.Clone()), ref.Bin("=", ref.Value(), sx("x"))),
+					ref.Bin("|", ref.Bin("|", a.Clone(), inv.Clone()), ref.Bin("=", k(), sx("bz"))),
+				} {
+					for _, st := range sts {
+						c02ExploreOpt(r, p, st, true)
+					}
+				}
 			}
 		}
 	case "in3":
@@ -388,8 +418,15 @@ var c02Configs = []struct {
 }{{drv.Row, 32}, {drv.Batch, 2}, {drv.Batch, 32}}
 
 func c02Explore(r *core.Reporter, pred *ref.Expr, ps []store.Pair) {
-	base := predCase{Pred: pred, Store: ps}
-	id := base.query() + " | store#" + fmt.Sprint(len(ps), ":", ps[0].V, ps[1].V)
+	c02ExploreOpt(r, pred, ps, false)
+}
+
+func c02ExploreOpt(r *core.Reporter, pred *ref.Expr, ps []store.Pair, rowOnly bool) {
+	base := predCase{Pred: pred, Store: ps, RowOnly: rowOnly}
+	id := base.query() + " | store#" + fmt.Sprint(len(ps), ":", ps[0].V, ps[len(ps)-1].V)
+	if rowOnly {
+		id = base.query() + " | " + store.CanonPairs(ps)
+	}
 	if !r.Begin(func() *core.Failure {
 		c := base
 		c.Mode, c.B = drv.Row, 32
@@ -434,7 +471,10 @@ func c02JudgeAll(base *predCase) c02Result {
 	}
 	wantRows := drv.PairsRows(sat)
 	var region scanRegion
-	for _, cfg := range c02Configs {
+	for i, cfg := range c02Configs {
+		if base.RowOnly && i > 0 {
+			break
+		}
 		c := *base
 		c.Mode, c.B = cfg.mode, cfg.b
 		f, reg := c02Judge(&c, sat, wantRows)
@@ -447,6 +487,9 @@ func c02JudgeAll(base *predCase) c02Result {
 	}
 	// delete form (DeletePlan always consumes batches; two batch sizes)
 	for _, b := range []int{2, 32} {
+		if base.RowOnly {
+			break // DELETE consumes its child in batches
+		}
 		c := *base
 		c.Del, c.Mode, c.B = true, drv.Row, b
 		if f := c02JudgeDelete(&c, sat); f != nil {
